@@ -91,6 +91,46 @@ Theorem C02_unmoved : forall o its, its <> [] ->
 Proof. exact C02_unmoved_lemma. Qed.
 Print Assumptions C02_unmoved.
 
+(* per item (the last sentence of the property): in the chain problem, a
+   variable whose neighbours' solved positions leave the required gaps around
+   its desired position sits exactly there *)
+Theorem pava_unmoved_item : forall d w g k, chain_ok d w g -> (k < length d)%nat ->
+  let x := pava d w g in
+  match k with O => True | S k' => qnth k' x + qnth k' g <= qnth k d end ->
+  (S k = length d \/ qnth k d <= qnth (S k) x - qnth k g) ->
+  qnth k x == qnth k d.
+Proof. exact PavaProofs.pava_unmoved_item. Qed.
+Print Assumptions pava_unmoved_item.
+
+(* ... for item i of a layer (in target order): if the solved position of its
+   left neighbour plus the gap is not right of its target (for the first item:
+   the left wall's position plus half its width, when there is a lower bound)
+   and likewise on the right, it is not moved, and is reported at round(target) *)
+Theorem C02_unmoved_item : forall o its i a, nth_error (sorted_items its) i = Some a ->
+  let s := sorted_items its in
+  let x := solve_layer_exact o its in
+  let g := gaps o s in
+  match i with
+  | O => match minP o with Some _ => wallL o s + wid a / 2 <= tgt a | None => True end
+  | S i' => qnth i' x + qnth i' g <= tgt a
+  end ->
+  (if (S i =? length its)%nat
+   then match maxP o with Some _ => tgt a <= wallR o s - wid a / 2 | None => True end
+   else tgt a <= qnth (S i) x - qnth i g) ->
+  qnth i x == tgt a /\ nth i (solve_layer o its) 0%Z = pyround (tgt a).
+Proof. exact C02_unmoved_item_lemma. Qed.
+Print Assumptions C02_unmoved_item.
+
+(* the hypotheses of C02_unmoved_item hold for the third item of C02_ex_layer
+   below (target 200) although its two neighbours are moved *)
+Example C02_ex_unmoved_item :
+  let o := mkOpts 3 2 (Some 0) None in
+  let its := [mkItem 200 10 false; mkItem 20 10 false; mkItem 24 10 false] in
+  nth_error (sorted_items its) 2 = Some (mkItem 200 10 false) /\
+  qnth 1 (solve_layer_exact o its) + qnth 1 (gaps o (sorted_items its)) <= 200 /\
+  (3 =? length its)%nat = true /\ maxP o = None.
+Proof. vm_compute. repeat split; try reflexivity; discriminate. Qed.
+
 (* non-vacuity *)
 Example C02_ex_chain :
   chain_ok [0; 5; 3; 100] [10000000000; 1; 1; 10000000000] [5; 13; 5] /\
